@@ -26,6 +26,8 @@ mod test_runner;
 mod utils;
 /// Verification probe commands for the unit test runner, only compiled with `--cfg mos_verif`
 #[cfg(mos_verif)]
+mod verif_c14;
+#[cfg(mos_verif)]
 mod verif_c18;
 /// Verification probe, only compiled with `--cfg mos_verif`
 #[cfg(mos_verif)]
